@@ -17,7 +17,9 @@ Encodings == {"raw", "hex", "prefixed", "der", "pem", "proto"}
 \* unknown_prefix_*: the algorithm is named by something that is no algorithm at all
 \* (protobuf tag 2, -1, 255; string prefix "rsa", "ed25519x", "")
 UnknownPrefix == {"unknown_prefix_a", "unknown_prefix_b", "unknown_prefix_c"}
-Corruptions == {"none", "truncate", "extend", "empty", "flip_first", "flip_last", "wrong_prefix"} \cup UnknownPrefix
+\* flip_pubkey: PKCS#8 documents of private keys also carry the public key; one bit of THAT field is flipped, so
+\* the document contradicts itself (the private key no longer generates the public key it announces)
+Corruptions == {"none", "truncate", "extend", "empty", "flip_first", "flip_last", "wrong_prefix", "flip_pubkey"} \cup UnknownPrefix
 DecodeAs == {"same", "other", "auto"}
 
 \* which cells exist in the API
@@ -39,6 +41,8 @@ Expect(enc, kind, alg, as, cor) ==
       [] cor = "wrong_prefix" ->
             IF enc \in {"prefixed", "proto"} THEN (IF kind = "private" /\ enc = "prefixed" THEN "FailOrDifferent" ELSE "MustFail")
             ELSE "NotApplicable"
+      \* a self-contradictory document is refused, never read as the key its private part describes
+      [] cor = "flip_pubkey" -> IF enc \in {"der", "pem"} /\ kind = "private" THEN "MustFail" ELSE "NotApplicable"
       \* an algorithm name / tag outside the two known ones is never read as one of them
       [] cor \in UnknownPrefix -> IF enc \in {"prefixed", "proto"} THEN "MustFail" ELSE "NotApplicable"
       [] cor \in {"flip_first", "flip_last"} ->
